@@ -11,7 +11,15 @@ QUOTED = re.compile(r"^\s*(\d+) \| (.*)$")
 QUOTED_LEX = re.compile(r"^\s*(\d+)\s+\|- (.*)$")
 CARET = re.compile(r"^\s*\^+\s*$")
 
-FAULT_KINDS = ["illegal_char", "stray_paren", "bad_literal", "undefined", "fin_assign", "bad_argument", "bad_operand"]
+FAULT_KINDS = ["illegal_char", "stray_paren", "bad_literal", "undefined", "fin_assign", "bad_argument", "bad_operand",
+               "bad_return_annotation"]
+# text with line breaks inside string literals and doc-strings, placed before the fault: every later line number depends on how
+# the lexer counts the lines of these tokens
+PRELUDES = ['"""\nmodule doc\n"""\n', '"""module doc"""\n', '"""\n\n"""\n', '"""\nfirst\nsecond\n"""\n',
+            'def pre_s := "line one\nline two"\n', 'def pre_t := "ends with a line break\n"\n', 'def pre_u := "\n"\n',
+            'class PreDoc\n    """\n    class doc\n    """\n    def pd: Int := 1\n',
+            'def pre_f() -> Int =>\n    """\n    fun doc\n    """\n    1\n', 'def pre_e := ""\ndef pre_g := "a\n\nb"\n',
+            '# comment\n\n"""doc\n"""\n']
 
 
 def statement_lines(lines):
@@ -72,6 +80,17 @@ def inject(draw, text):
     if kind == "fin_assign":
         lines[i:i] = [ind + "def fin zq8 := 1", ind + "zq8 := 2"]
         return "\n".join(lines), i + 2, kind
+    if kind == "bad_return_annotation":
+        # the fault is the annotation on the signature line: it disagrees with what the body returns two or three lines below
+        if ind:
+            return None  # nested function definitions are not part of the language
+        ret, val = draw(st.sampled_from([("Str", "zp + 9130"), ("Int", '"zq9c"'), ("Bool", "zp + 9131"), ("Str", "9132")]))
+        block = [ind + "def zq7(zp: Int) -> %s =>" % ret]
+        if draw(st.booleans()):
+            block.append(ind + "    # the body starts here")
+        block += [ind + "    print(zp)", ind + "    return %s" % val]
+        lines[i:i] = block
+        return "\n".join(lines), i + 1, kind
     lines[i:i] = [ind + draw(st.sampled_from(new[kind]))]
     return "\n".join(lines), i + 1, kind
 
@@ -88,6 +107,8 @@ def _case(draw, seeds):
         base = seeds[draw(st.integers(0, len(seeds) - 1))]
     if len(base) > 3000:
         base = "def a := 1\nprint(a)\ndef b := a + 1\nprint(b)\n"
+    if draw(st.integers(0, 99)) < 40:
+        base = draw(st.sampled_from(PRELUDES)) + base
     inj = inject(draw, base)
     if inj is None:
         return {"gen": which, "files": [[base, "src/a.mamba"]], "dir": "src", "fault": None, "base": base}
@@ -130,7 +151,9 @@ class C19:
     cases = {"quick": 150, "thorough": 10000}
     rule = ("rejected inputs: accepted base programs (CoreGen, repository samples) with one fault injected on a known line L "
             "(illegal character, stray token at the end of L, wrongly typed literal initialiser, undefined name, assignment to a "
-            "fin variable, wrong arguments, ill-typed operand) inside top-level and nested blocks, alone or as one file of a "
+            "fin variable, wrong arguments, ill-typed operand, a return annotation on a signature line that disagrees with the value "
+            "returned lines below) inside top-level and nested blocks, in 40% of the cases after a prelude with line breaks inside "
+            "string literals / doc-strings (every later line number depends on how those tokens are counted), alone or as one file of a "
             "2-3 file project; 2-mutation variants of samples; a fixed catalogue (errors raised while the context is built, "
             "errors at first/last character, in interpolations, after wide characters). Oracle on the rendered diagnostics: "
             "non-empty list of non-empty strings; every diagnostic has a location header naming the display path of an input "
